@@ -14,6 +14,7 @@ import (
 	"sort"
 	"strconv"
 	"strings"
+	"sync"
 	"syscall"
 	"time"
 )
@@ -60,6 +61,11 @@ type Stats struct {
 const maxEvents = 4000
 
 var cur *State
+
+// simMu serialises the simulator's own bookkeeping: the code under test may call into it from
+// several goroutines (the cooperative scheduler lets a released goroutine run alongside one that
+// has not blocked yet).
+var simMu sync.Mutex
 
 // Current returns the installed state (nil when running on the real OS).
 func Current() *State { return cur }
@@ -177,6 +183,8 @@ func OrderString(site string, m interface{}) []string {
 }
 
 func (st *State) order(site string, keys []string) []string {
+	simMu.Lock()
+	defer simMu.Unlock()
 	call := st.orderCalls
 	st.orderCalls++
 	n := len(keys)
@@ -252,6 +260,8 @@ func Now() time.Time {
 	if st == nil {
 		return time.Now()
 	}
+	simMu.Lock()
+	defer simMu.Unlock()
 	t := time.Unix(0, st.now).In(st.loc)
 	st.now += st.W.TickNano
 	st.Stats.ClockReads++
@@ -329,6 +339,8 @@ func Stat(name string) (os.FileInfo, error) {
 	if st == nil {
 		return os.Stat(name)
 	}
+	simMu.Lock()
+	defer simMu.Unlock()
 	st.Stats.Stats++
 	spec, a, err := st.lookup("stat", name)
 	if err != nil {
@@ -361,6 +373,8 @@ func Open(name string) (*File, error) {
 		}
 		return &File{real: f, name: name}, nil
 	}
+	simMu.Lock()
+	defer simMu.Unlock()
 	st.Stats.Opens++
 	spec, a, err := st.lookup("open", name)
 	if err != nil {
@@ -426,6 +440,8 @@ func (f *File) Read(p []byte) (int, error) {
 		return 0, &fs.PathError{Op: "read", Path: f.name, Err: syscall.EBADF}
 	}
 	st := f.st
+	simMu.Lock()
+	defer simMu.Unlock()
 	st.Stats.Reads++
 	if f.done {
 		return 0, &fs.PathError{Op: "read", Path: f.name, Err: fs.ErrClosed}
@@ -506,6 +522,8 @@ func (f *File) Close() error {
 	if f.done {
 		return &fs.PathError{Op: "close", Path: f.name, Err: fs.ErrClosed}
 	}
+	simMu.Lock()
+	defer simMu.Unlock()
 	f.done = true
 	f.st.Stats.Closes++
 	f.st.event("close %s", f.spec.Path)
@@ -590,6 +608,8 @@ func (f *File) Sync() error {
 
 // SinkWrite is the simulated standard output.
 func (st *State) SinkWrite(p []byte) (int, error) {
+	simMu.Lock()
+	defer simMu.Unlock()
 	st.Stats.SinkWrites++
 	plan := st.W.Sink
 	sinkErr := func() error {
